@@ -10,6 +10,7 @@ import (
 	"math"
 	"runtime/debug"
 	"strings"
+	"testing/synctest"
 
 	"github.com/buildbarn/go-xdr/pkg/protocols/nfsv4"
 
@@ -461,7 +462,31 @@ func (e *env) panicEvent(x int, ops []*Op, msg string, fresh bool) {
 func (e *env) runSeq(sess [16]byte, slot, seq uint32, cache bool, ops []*Op, fresh bool) *nfsv4.Compound4res {
 	x := e.newCtx()
 	defer e.freeCtx(x)
-	res, pan := e.call(seqArgs(sess, slot, seq, cache, ops))
+	var res *nfsv4.Compound4res
+	var pan string
+	if e.async {
+		// Other requests are held in flight (synctest bubble): if the
+		// server makes this one wait for one of them, say so instead of
+		// waiting forever.
+		done := make(chan callResult, 1)
+		args := seqArgs(sess, slot, seq, cache, ops)
+		go func() {
+			r, p := e.call(args)
+			done <- callResult{r, p}
+		}()
+		synctest.Wait()
+		select {
+		case r := <-done:
+			res, pan = r.res, r.pan
+		default:
+			ev := e.seqEvent(x, sess, slot, seq, cache, ops, "BLOCKED")
+			ev["ev"] = "blocked"
+			e.tr.Emit(ev)
+			return nil
+		}
+	} else {
+		res, pan = e.call(seqArgs(sess, slot, seq, cache, ops))
+	}
 	if pan != "" {
 		e.tr.Emit(e.seqEvent(x, sess, slot, seq, cache, ops, "PANIC"))
 		e.panicEvent(x, ops, pan, fresh)
